@@ -170,13 +170,25 @@ def scf_problem(draw, well_conditioned=False):
 def lib_optimize(case, C0, n_iter):
     norb, nelec = int(case["norb"]), (int(case["nelec"][0]), int(case["nelec"][1]))
     hd = {"h0": float(case["h0"]), "h1": jnp.asarray(np.asarray(case["h1"], float)), "chol": jnp.asarray(np.asarray(case["chol"], float).reshape(-1, norb * norb)), "ene0": 0.0}
+    # wave_data usually also carries "rdm1" (the density used for the mean-field shift), which need not be the density of the trial's own
+    # orbitals (spin-averaged, from a correlated calculation, ...): the optimisation starts from the orbitals, whatever that entry holds
+    extra = {}
+    mode = case.get("rdm1_entry")
+    if mode:
+        da, db = np.asarray(C0[0])[:, : nelec[0]] @ np.asarray(C0[0])[:, : nelec[0]].T, np.asarray(C0[1])[:, : nelec[1]] @ np.asarray(C0[1])[:, : nelec[1]].T
+        if mode == "spin-averaged":
+            da = db = (da + db) / 2
+        elif mode == "noisy":
+            nz = np.asarray(case["rdm1_noise"], float)
+            da, db = da + 0.3 * (nz[0] + nz[0].T), db + 0.3 * (nz[1] + nz[1].T)
+        extra["rdm1"] = jnp.asarray(np.stack([da, db]))
     if case["kind"] == "rhf":
         tr = wavefunctions.rhf(norb, nelec, n_opt_iter=n_iter)
-        wd = tr.optimize(hd, {"mo_coeff": jnp.asarray(C0[0])})
+        wd = tr.optimize(hd, dict(extra, mo_coeff=jnp.asarray(C0[0])))
         C = np.asarray(wd["mo_coeff"])
         return C, C
     tr = wavefunctions.uhf(norb, nelec, n_opt_iter=n_iter)
-    wd = tr.optimize(hd, {"mo_coeff": [jnp.asarray(C0[0]), jnp.asarray(C0[1])]})
+    wd = tr.optimize(hd, dict(extra, mo_coeff=[jnp.asarray(C0[0]), jnp.asarray(C0[1])]))
     return np.asarray(wd["mo_coeff"][0]), np.asarray(wd["mo_coeff"][1])
 
 
@@ -233,6 +245,8 @@ def ortho_body(ctx, case):
 def fixed_case(draw, tier="quick"):
     p = draw(scf_problem())
     p["n_iter"] = draw(st.sampled_from([1, 30]))
+    p["rdm1_entry"] = draw(st.sampled_from([None, "own", "spin-averaged", "noisy"]))
+    p["rdm1_noise"] = draw(gens.real((2, p["norb"], p["norb"])))
     return p
 
 
@@ -240,7 +254,7 @@ def fixed_body(ctx, case):
     n, nelec = int(case["norb"]), (int(case["nelec"][0]), int(case["nelec"][1]))
     h1, chol = np.asarray(case["h1"], float), np.asarray(case["chol"], float)
     ok, Ca, Cb, e_ref = ref_scf(float(case["h0"]), h1, chol, nelec)
-    ctx.case(case, nontrivial=bool(np.any(chol)), classes=["fixed-point:" + case["kind"], f"n_opt_iter={case['n_iter']}", f"scale={case['scale']}"])
+    ctx.case(case, nontrivial=bool(np.any(chol)), classes=["fixed-point:" + case["kind"], f"n_opt_iter={case['n_iter']}", f"scale={case['scale']}", f"wave_data-rdm1={case.get('rdm1_entry')}"])
     if not ok:
         ctx.count("skipped:reference-scf-not-certified")
         return
